@@ -103,6 +103,19 @@ func siteCases() []siteCase {
 		}})
 	}
 
+	// Lists that hold contextual subtables only: the kind of the table (and
+	// with it the extension lookup type 7 or 9) follows from the lookup types.
+	for _, name := range []string{"gsub5_1", "gsub6_3", "gpos7_2", "gpos8_1"} {
+		bc := lookups.FindBigClass(name)
+		n := (bc.Lo + bc.Hi) / 2
+		res = append(res, siteCase{"lookup-offsets-contextual-only:" + name, &infoCase{
+			kind:  bc.Kind,
+			info:  &gtab.Info{ScriptList: dfltScripts(), FeatureList: oneFeature(), LookupList: gtab.LookupList{bigLookup(bc, n), bigLookup(bc, n+1), bigLookup(bc, n+2)}},
+			sites: []string{lookups.SiteLookupOffset},
+			desc:  []string{fmt.Sprintf("three lookups with one subtable %s N=%d..", name, n)},
+		}})
+	}
+
 	// Info-level classes
 	someLookups := func() gtab.LookupList {
 		return gtab.LookupList{bigLookup(lookups.FindBigClass("gsub1_2"), 3)}
@@ -140,9 +153,12 @@ func siteCases() []siteCase {
 		}
 		res = append(res, siteCase{name, c})
 	}
-	// feature list up to the 16-bit limit: last feature table at offset 65532
-	// 2+6n+4n = 65532+... : n=6553 features without lookups -> last offset 2+10*6553-4 = 65528
-	info("features-at-limit", "", &gtab.Info{ScriptList: gtab.ScriptListInfo{}, FeatureList: features(6553, 0), LookupList: gtab.LookupList{}})
+	// feature list up to the 16-bit limit of the header: 6552 features
+	// without lookups are 65522 bytes, the lookup list starts at 65534
+	info("features-at-limit", "", &gtab.Info{ScriptList: gtab.ScriptListInfo{}, FeatureList: features(6552, 0), LookupList: gtab.LookupList{}})
+	// one feature more: the feature list itself is fine (last feature at
+	// 65528), but the lookup list offset exceeds 16 bits
+	info("features-beyond-header-limit", lookups.SiteHeaderListOffset, &gtab.Info{ScriptList: gtab.ScriptListInfo{}, FeatureList: features(6553, 0), LookupList: gtab.LookupList{}})
 	info("features-overflow", lookups.SiteFeatureOffset, &gtab.Info{ScriptList: dfltScripts(), FeatureList: features(6560, 0), LookupList: someLookups()})
 	fl := features(2, 1)
 	fl[1].Lookups = make([]gtab.LookupIndex, 0x10000+5)
